@@ -124,17 +124,8 @@ pub fn c11_l3_limit_ok_small() {
     kani::cover!(l == 40, "20 blocks");
 }
 
-//@h name=c11_l3_limit_ok_max_real tier=thorough mode=func timeout=5400 desc="length limit, boundary, through the REAL hkdf crate with Nh = 2: an export of exactly 255*Nh = 510 bytes (and of 509) SUCCEEDS" bounds="L = 509 and 510 (concrete; 255 HKDF blocks executed); unwind 258"
-#[kani::proof]
-#[kani::unwind(258)]
-#[kani::stub(zeroize::optimization_barrier, noop_barrier)]
-pub fn c11_l3_limit_ok_max_real() {
-    let ctx = const_ctx();
-    let mut buf = [0u8; 510];
-    assert!(ctx.export(&[], &mut buf[..509]).is_ok(), "509 bytes must succeed");
-    assert!(ctx.export(&[], &mut buf[..510]).is_ok(), "export of exactly 255*Nh bytes must succeed");
-}
-
+// (an un-stubbed variant of the boundary harness - 255 HKDF blocks through the real hkdf crate with Nh = 2 -
+// did not finish in 90 min at 10 GB and is not registered)
 //@h name=c11_l3_limit_ok_max tier=quick mode=func timeout=1800 desc="length limit, boundary (hkdf crate replaced by its functional model, Nh = 8): an export of exactly 255*Nh = 2040 bytes SUCCEEDS and one of 2041 bytes fails with KdfOutputTooLong - the largest legal length is not rejected by hpke's own pre-checks" bounds="L = 2040 and 2041 (concrete; 255 HKDF blocks executed by the stub layer); exporter secret symbolic; unwind 258"
 #[kani::proof]
 #[kani::unwind(258)]
